@@ -88,8 +88,8 @@ class World(S.WorldComponent):
     theorems = ["abandon_whole_message", "abandon_whole_message_unsent", "adv_ack_only_over_abandoned", "forward_tsn_pending",
                 "prune_rule", "reliable_unaffected", "pr_integrity", "pr_recovers_partial"]
     ssn_share = 4
-    mix = [("ssnwrap", False, 1), ("mixed-pr", False, 4), ("mixed-pr", True, 1), ("expiry", False, 2), ("strike", False, 2)]
-    quick = (24, 300)
+    mix = [("ssnwrap", False, 1), ("mixed-pr", False, 4), ("mixed-pr", True, 1), ("expiry", False, 2), ("strike", False, 5)]
+    quick = (36, 300)
     thorough = (150, 500)
     oracles = [S.oracle_no_crash, S.oracle_c06, S.oracle_c01, S.oracle_c02, S.oracle_recovers]
 
